@@ -156,6 +156,24 @@ def _must_pass_flags(r, fn, required, what, excuse=None):
             break
 
 
+def _ret_expr(fn, n, stop_at_name=False):
+    """The expression returned at node n, with plain-name copies (`rv = X; return rv`) followed to X.  With
+    stop_at_name the last plain name of the copy chain is returned (the variable, not its defining call)."""
+    e = n.ast.value
+    try:
+        env = _fnorm(fn).env_at(n)
+    except Exception:
+        return e
+    for _i in range(4):
+        if not (isinstance(e, ast.Name) and e.id in env.defs):
+            break
+        d = env.defs[e.id]
+        if stop_at_name and not isinstance(d, ast.Name):
+            break
+        e = d
+    return e
+
+
 def _fact_excuse(fn, pred):
     fx = _fnorm(fn)
 
@@ -737,10 +755,10 @@ def run(ctx: Context):
         fu = idx.func(FETCH + "._find_and_use_share")
         cfg = fu.cfg()
         fx = _fnorm(fu)
-        rets = [n for n in cfg.nodes if is_return(n) and isinstance(n.ast.value, ast.Tuple) and len(n.ast.value.elts) == 2]
-        if not rets or not all(isinstance(n.ast.value.elts[1], ast.Name) for n in rets):
+        rets = [e for e in (_ret_expr(fu, n) for n in cfg.nodes if is_return(n)) if isinstance(e, ast.Tuple) and len(e.elts) == 2]
+        if not rets or not all(isinstance(e.elts[1], ast.Name) for e in rets):
             raise AnchorVanished("_find_and_use_share no longer returns (sent_something, want_more_diversity)")
-        flag = rets[0].ast.value.elts[1].id
+        flag = rets[0].elts[1].id
         limit_tests = []
         for n in cfg.nodes:
             if n.kind != "test":
@@ -851,9 +869,9 @@ def _rule_hand_over(ctx: Context):
         # (c) Share.get_block registers the observer it returns, and makes it cancellable
         fn = idx.func(SHARE + ".get_block")
         cfg = fn.cfg()
-        rets = [n for n in cfg.find(is_return)]
-        onames = {n.ast.value.id for n in rets if isinstance(n.ast.value, ast.Name)}
-        if not rets or len(onames) != 1 or not all(isinstance(n.ast.value, ast.Name) for n in rets):
+        rets = [_ret_expr(fn, n, stop_at_name=True) for n in cfg.find(is_return)]
+        onames = {e.id for e in rets if isinstance(e, ast.Name)}
+        if not rets or len(onames) != 1 or not all(isinstance(e, ast.Name) for e in rets):
             raise AnchorVanished("Share.get_block no longer returns its observer variable")
         ob = onames.pop()
         on_req = _on_path(fn, "self._requested_blocks")
@@ -933,10 +951,10 @@ def _rule_hand_over(ctx: Context):
         fu = idx.func(FETCH + "._find_and_use_share")
         cfg = fu.cfg()
         fx = _fnorm(fu)
-        rets = [n for n in cfg.nodes if is_return(n) and isinstance(n.ast.value, ast.Tuple) and len(n.ast.value.elts) == 2]
-        if not rets or not all(isinstance(n.ast.value.elts[0], ast.Name) for n in rets):
+        rets = [e for e in (_ret_expr(fu, n) for n in cfg.nodes if is_return(n)) if isinstance(e, ast.Tuple) and len(e.elts) == 2]
+        if not rets or not all(isinstance(e.elts[0], ast.Name) for e in rets):
             raise AnchorVanished("_find_and_use_share no longer returns (sent_something, want_more_diversity)")
-        sent = rets[0].ast.value.elts[0].id
+        sent = rets[0].elts[0].id
         starts = [c for n in cfg.find(_calls(fu, "self._start_share")) for c in node_calls(n) if call_tail(c) == "_start_share"]
         if not starts or not all(c.args and attr_path(c.args[0]) for c in starts):
             r.violation(fu, fu.loc(), "_find_and_use_share no longer starts (self._start_share(share, ..)) the share it picks")
@@ -1018,6 +1036,8 @@ def _rule_hand_over(ctx: Context):
                 def transfer(n, lab, nxt, st, _h=h):
                     if lab == "exc" or n is _h or asks(n):
                         return None
+                    if fx.edge_fact(n, lab) in (("false", "True", None), ("truth", "False", None)):
+                        return None     # the exit edge of `while True:` is never taken
                     return 0
                 visited, parent = explore(cfg, 0, transfer, start=cfg.nodes[d])
                 r.count(len(visited))
@@ -1158,7 +1178,19 @@ def _rule_alive_filter(ctx: Context):
         r.site(sl, None, "premise: Share.loop returns early when not alive")
         ia = idx.func("immutable.downloader.share:Share.is_alive")
         rets = [n for n in ia.cfg().find(is_return)]
-        r.require(bool(rets) and all("_alive" in ast.unparse(n.ast.value) for n in rets), ia, ia.loc(),
+        ian = _fnorm(ia)
+
+        def reports_alive(n):
+            v = n.ast.value
+            if v is None:
+                return False
+            try:
+                s = ian.norm(n, v)
+            except Exception:
+                s = None
+            return "self._alive" in leaves(v) or bool(s and re.search(r"\bself\._alive\b", s)) \
+                or "self._alive" in depends_on(ia, v)
+        r.require(bool(rets) and all(reports_alive(n) for n in rets), ia, ia.loc(),
                   "is_alive() no longer reports the _alive flag cleared by _fail()")
 
 
